@@ -2,13 +2,22 @@
 EXTENDS Payload, Mk, TLC, FiniteSets, Json
 VARIABLE c
 Alphabet == { MkIhw(7), MkTdh(3, 1, 0, 0, 5, 1001), MkTdh(16, 0, 1, 0, 0, 0), MkData(34, 160), MkData(34, 255) , MkTdt(1), MkTdt(0), MkDdw0,      \* TDT / DDW0 start with six zero bytes: in second position they look like a 16-byte slot
-              <<255,255,255,255,255,255,255,255,255,34>> }      \* a data word full of 0xFF (only the id differs)
+              <<255,255,255,255,255,255,255,255,255,34>>,       \* a data word full of 0xFF (only the id differs)
+              <<1,2,3,4,5,6,7,8,9,255>>, <<0,0,0,0,0,0,0,0,255,255>> }      \* words that END in 0xFF (a corrupted identifier): their own bytes prolong the trailing 0xFF run
 Seqs == UNION {[1..n -> Alphabet] : n \in 0..3}
-Init == c \in [df : {0, 2}, ws : Seqs, pad : 0..20]
+\* fill: the six filler bytes of the LAST 16-byte slot in data format 0 (0x00 as a rule; 0xFF is not forbidden: only the first ten bytes are the word)
+Init == c \in [df : {0, 2}, ws : Seqs, pad : 0..20, fill : {0, 255}]
 Next == UNCHANGED c
-P == Encode(c.df, c.ws, c.pad)
-\* no word of the alphabet ends in 0xFF (identifiers are never 0xFF), so the trailing 0xFF run of P is exactly the padding
-CutExact == IF c.pad > 15 THEN PadErr(P) ELSE (~PadErr(P) /\ Cut(c.df, P) = c.ws)
-Emit == PrintT("CASE " \o ToJson([df |-> c.df, pad |-> c.pad, payload |-> P, paderr |-> (c.pad > 15), words |-> c.ws]))
+Base == IF c.df = 2 \/ c.ws = << >> THEN Encode(c.df, c.ws, 0)
+        ELSE LET e == Encode(0, c.ws, 0) IN [k \in 1..Len(e) |-> IF k > Len(e) - 6 THEN c.fill ELSE e[k]]
+P == Base \o [k \in 1..c.pad |-> 255]
+EndsFF(w) == w[10] = 255
+Plain == (c.ws = << >> \/ ~EndsFF(c.ws[Len(c.ws)])) /\ (c.df = 2 \/ c.fill = 0 \/ c.ws = << >>)
+\* where the trailing 0xFF run is exactly the padding, the cut gives back the words, and the payload error is raised iff the padding exceeds 15 bytes
+CutExact == Plain => IF c.pad > 15 THEN PadErr(P) ELSE (~PadErr(P) /\ Cut(c.df, P) = c.ws)
+\* in data format 0 the filler bytes never change the words (unless the run of 0xFF is long enough to be a payload error)
+Fmt0Filler == (c.df = 0 /\ ~PadErr(P)) => Cut(0, P) = c.ws
+\* every case is emitted with what the specification says about it (also the ambiguous ones: a last word ending in 0xFF followed by padding)
+Emit == PrintT("CASE " \o ToJson([df |-> c.df, pad |-> c.pad, payload |-> P, paderr |-> PadErr(P), words |-> IF PadErr(P) THEN << >> ELSE Cut(c.df, P)]))
 Offsets == \A i \in 1..Len(c.ws) : WordOffset(0, c.df, i - 1) = 64 + (i - 1) * (IF c.df = 0 THEN 16 ELSE 10)
 ==============================================================================
